@@ -1545,6 +1545,27 @@ def _tofu_spec(name, func, header, ret_type, **kw):
     return base
 
 
+# `_parse_header` of the client protocols works on the decoded header text; the model works on the bytes it was decoded from.  What is
+# ASSUMED about Python here (and nothing else): `t.split(" ", 1)` is the cut at the first space (`Cl.splitSpace`, `Cl.hasSep`);
+# `len(t) == 2 and t.isascii() and t.isdigit()` holds exactly for two ASCII digits and `int(t)` is then their value (`Cl.statusOf`).
+_PARSE_HEADER = dict(
+    fields={"status": "status", "meta": "mta"},
+    skip_src=("parts = header_line.split(' ', 1)", "status_text = parts[0]"),
+    opaque={"len(parts) < 1": "false", "len(parts) > 1": "(Cl.hasSep header_line)", "len(parts) < 2": "(!Cl.hasSep header_line)",
+            "parts[0]": "(Cl.splitSpace header_line).1", "parts[1]": "(Cl.splitSpace header_line).2", "status_text": "(Cl.splitSpace header_line).1",
+            "len(status_text) == 2 and status_text.isascii() and status_text.isdigit()": "(Cl.twoDigits (Cl.splitSpace header_line).1)",
+            "int(status_text)": "(Cl.intOf (Cl.splitSpace header_line).1)", "''": "([] : List Nat)",
+            "'\\r' in meta_": "(meta_.contains 13)", "'\\n' in meta_": "(meta_.contains 10)",
+            "10 <= self.status < 70": "(decide (10 ≤ Cl.intOf (Cl.splitSpace header_line).1) && decide (Cl.intOf (Cl.splitSpace header_line).1 < 70))"},
+    types={"len(parts) < 1": "bool", "len(parts) > 1": "bool", "len(parts) < 2": "bool", "parts[0]": "str", "parts[1]": "str", "status_text": "str", "meta_": "str",
+           "len(status_text) == 2 and status_text.isascii() and status_text.isdigit()": "bool", "int(status_text)": "num", "''": "str",
+           "'\\r' in meta_": "bool", "'\\n' in meta_": "bool", "10 <= self.status < 70": "bool", "self.status": "optnum", "self.meta": "str", "header_line": "str"},
+    errors={"Invalid response header: missing status": "\"badStatus\"", "Invalid status code": "\"badStatus\"", "Invalid response header": "\"badHeader\"",
+            "Status code out of range": "\"statusRange\""},
+    pytypes={"str": ("str", "List Nat")}, rename_reserved=True,
+    world_ops={"self._set_error": dict(fn="Cl.setError", ret=None, error_arg=True)})
+
+
 SPECS = [
     dict(name="consume", file="server/middleware.py", cls="TokenBucket", func="consume", state="s", numbers="Rat",
          header="def consume (s : BucketSt) (now tokens : Rat) : BucketSt × Bool :=",
@@ -1707,6 +1728,10 @@ SPECS = [
          opaque={"self.response_future.done()": "(s.fut != .pending)"}, types={"self.response_future.done()": "bool"},
          call_hooks={"GeminiResponse": _header_only_response},
          world_ops={"self.response_future.set_result": dict(fn="Cl.setResult", ret=None)}),
+    dict(name="clientParseHeader", file="client/protocol.py", cls="GeminiClientProtocol", func="_parse_header", state="s", thread="s", implicit_return=True,
+         header="def clientParseHeader (s : Cl.CSt) (header_line : List Nat) : Cl.CSt × Unit :=", state_type="Cl.CSt", **_PARSE_HEADER),
+    dict(name="titanClientParseHeader", file="client/protocol.py", cls="TitanClientProtocol", func="_parse_header", state="s", thread="s", implicit_return=True,
+         header="def titanClientParseHeader (s : Cl.CSt) (header_line : List Nat) : Cl.CSt × Unit :=", state_type="Cl.CSt", **_PARSE_HEADER),
     dict(name="titanClientDataReceived", file="client/protocol.py", cls="TitanClientProtocol", func="data_received", mode="except", state="s", thread="s",
          implicit_return=True, header="def titanClientDataReceived (env : Cl.Env) (s : Cl.CSt) (data : List Nat) : Cl.CSt × Except Unit Unit :=",
          ret_type="Cl.CSt × Except Unit Unit",
@@ -1874,6 +1899,7 @@ PRELUDE = {
     "pumpResponse": (["NauyacaVerif.Srv.FlowPy"], []), "resumeWriting": (["NauyacaVerif.Srv.FlowPy", "NauyacaVerif.Gen.Fn.PumpResponse"], []),
     "pauseWriting": (["NauyacaVerif.Srv.FlowPy"], []), "sendResponse": (["NauyacaVerif.Srv.FlowPy", "NauyacaVerif.Gen.Fn.PumpResponse"], []), "connectionLost": (["NauyacaVerif.Srv.FlowPy"], []),
     "clientDataReceived": (["NauyacaVerif.Cl.PyClient"], []), "titanClientDataReceived": (["NauyacaVerif.Cl.PyClient"], []),
+    "clientParseHeader": (["NauyacaVerif.Cl.PyClient"], []), "titanClientParseHeader": (["NauyacaVerif.Cl.PyClient"], []),
     "deliverHeaderOnly": (["NauyacaVerif.Cl.PyClient"], []), "titanDeliverHeaderOnly": (["NauyacaVerif.Cl.PyClient"], []),
     "getSingleTail": (["NauyacaVerif.Cl.TofuEnv"], []), "uploadTail": (["NauyacaVerif.Cl.TofuEnv"], []),
     "tofuVerify": (["NauyacaVerif.Misc.SqlEnv"], []), "tofuTrust": (["NauyacaVerif.Misc.SqlEnv"], []), "tofuRevoke": (["NauyacaVerif.Misc.SqlEnv"], []),
@@ -1884,6 +1910,10 @@ PRELUDE = {
         "structure TitanReq where", "  raw : List Char", "  parsed : Url.Parsed", "  size : Int", "  mime : List Char", "  token : Option (List Char)", "deriving Repr", ""]),
     "certProcess": (["NauyacaVerif.Mw.Cert"], []),
 }
+
+
+LEAN_RESERVED = {"meta", "end", "from", "at", "open", "in", "do", "then", "fun", "show", "have", "local", "private", "instance", "section", "namespace",
+                 "variable", "universe", "macro", "syntax", "prefix", "where", "deriving", "mutual", "import", "export", "theorem", "def", "match", "with", "let", "by", "calc"}
 
 
 def cap(name: str) -> str:
@@ -1905,6 +1935,13 @@ def translate_all() -> tuple[dict[str, str], dict[str, str]]:
             if f is None:
                 raise Unsupported("function not found")
             spec = dict(spec)
+            if spec.get("rename_reserved"):
+                # local names of the Python function that are keywords of Lean (`meta`, `end`, `from` ...) get a trailing underscore
+                for n in ast.walk(f):
+                    if isinstance(n, ast.Name) and n.id in LEAN_RESERVED:
+                        n.id += "_"
+                    elif isinstance(n, ast.arg) and n.arg in LEAN_RESERVED:
+                        n.arg += "_"
             spec["_locals"] = {a.arg for a in f.args.args + f.args.kwonlyargs} | {n.id for n in ast.walk(f) if isinstance(n, ast.Name) and isinstance(n.ctx, ast.Store)}
             spec["_scope"] = (module, next((n for n in ast.walk(module) if isinstance(n, ast.ClassDef) and n.name == spec["cls"]), None) if spec["cls"] else None)
             spec["_helpers"], spec["_helper_types"] = {}, {}
